@@ -1,11 +1,17 @@
-import UF.Driver.Ops.Match
-/- Dispatch table of the line protocol: op name ↦ handler on the decoded arguments. -/
+import UF.Driver.Ops.Core
+import UF.Driver.Ops.GroupA
+import UF.Driver.Ops.GroupB
+import UF.Driver.Ops.GroupC
+import UF.Driver.Ops.GroupD
+import UF.Driver.Ops.GroupE
+import UF.Driver.Ops.GroupF
+/- Dispatch of the line protocol: each group file handles its own ops. -/
 namespace UF
 
 def dispatch (op : String) (args : List W) : String :=
-  match op with
-  | "match" => Ops.opMatch args
-  | _ => "unknown-op"
+  (Ops.dispatchCore op args <|> Ops.dispatchA op args <|> Ops.dispatchB op args <|>
+   Ops.dispatchC op args <|> Ops.dispatchD op args <|> Ops.dispatchE op args <|>
+   Ops.dispatchF op args).getD "unknown-op"
 
 /-- One protocol line: `<op> <values…> [= <go answer…>]` ↦ the driver's answer. -/
 def handleLine (line : String) : String :=
